@@ -13,6 +13,7 @@ Tokens: a file / record is `<name hex>:<content hex>`; lists are length-prefixed
 * `C18.v1.bundle <keys> <data>` → `ok <plaintext hex> resealed=<0|1>` | `err`
 * `C18.v1.import <master> <nt> <file>… <nr> <rec>… <no> <observed file>…` → `ok|err <n> <file>…` (sorted)
 * `C18.v1.classify <path>` → purpose, id and slot of `ClassifyExportedKey`
+* `C18.v1.migrate2 <master> <n> <file>… <m> <file>…` → two key stores migrated into one v2 key store, results and rings
 * `C18.v1.migrate <master> <n> <file>…` → overall result, per-key results, plaintext view of the v2 rings
 * `C07.v1.write <master> <op> <id> <secret> <pub> <no> <path>:<data>:<0|1>…` → `ok <n> <write>…` | `err`
 * `C07.v1.load <master> <c|x|n>:<ctx> <data>` → `ok <hex>` | `err`
@@ -136,6 +137,20 @@ partial def handleC18 (op : String) (args : List String) : Option String :=
       let p ← ofHex p
       let k := MigrateV1.classify p
       pure s!"{showCtx k.ctx} pub={b01 (k.pubPath ≠ [])} priv={b01 (k.privPath ≠ [])} sym={b01 (k.symPath ≠ [])}"
+  | "v1.migrate2", master :: rest => do
+      -- two v1 key stores migrated one after the other into the same v2 key store
+      let master ← ofHex master
+      let (fs1, rest) ← takeList rest
+      let (fs2, rest) ← takeList rest
+      if rest ≠ [] then none
+      let fs1 ← fs1.mapM parsePair
+      let fs2 ← fs2.mapM parsePair
+      let S1 : Store := ⟨master, filesOf fs1⟩
+      let S2 : Store := ⟨master, filesOf fs2⟩
+      let (v1, r1) := MigrateV1.migrate env S1 []
+      let (v2, r2) := MigrateV1.migrate env S2 v1
+      if r1 = .panic ∨ r2 = .panic then pure "panic"
+      else pure s!"{showRes r1} {showRes r2} rings {showList (sortStr (v2.map showV2Ring))}"
   | "v1.migrate", master :: rest => do
       let master ← ofHex master
       let (fs, rest) ← takeList rest
